@@ -182,6 +182,119 @@ pub fn spec(check: &str, tier: &str) -> Option<CheckSpec> {
                 abort_is_violation: true,
             })
         }
+        "C13" => {
+            // programs with schedule, load and spurious branches and a manageable iteration count
+            let mut progs = vec![];
+            progs.extend(fam::asc_sentinels());
+            let small = ["S24-SB", "S24-MP", "S27", "S-D12", "S-D16", "S-SB-rmw", "S24-2+2W"];
+            progs.extend(fam::lit_sentinels().into_iter().filter(|p| tier != "quick" && !p.name.contains("overflow") && !p.name.contains("IRIW") || small.iter().any(|s| p.name.starts_with(s))));
+            progs.extend(fam::lock_sentinels());
+            let stride = if tier == "quick" { 0 } else { 1 };
+            let pick = |v: Vec<Program>, n: usize| -> Vec<Program> {
+                let step = (v.len() / n).max(1);
+                v.into_iter().step_by(step).collect()
+            };
+            progs.extend(pick(fam::wait_family(1, 2, 2, 12, true, true, true), if tier == "quick" { 16 } else { 400 }));
+            progs.extend(pick(fam::chan_family(2, 2, 2, true), if tier == "quick" { 6 } else { 60 }));
+            progs.extend(pick(fam::a_sc(1, 2, 2, 4, false), if tier == "quick" { 10 } else { 170 }));
+            let mut cfg = cfg.clone();
+            cfg.iter_cap = if tier == "quick" { 500 } else { 2500 };
+            let mut js = jobs("C13", tier, progs, &cfg);
+            for j in js.iter_mut() {
+                j.extra = serde_json::json!({"intervals": if tier == "quick" { vec![1, 3] } else { vec![1, 2, 3, 7] }, "stop_stride": stride});
+            }
+            Some(CheckSpec {
+                id: "C13",
+                level: "model_checking",
+                rule: "programs of the sentinel lists and evenly spaced members of the WAIT/CHAN/A-sc families (schedule, load and spurious branches); two full runs; for every checkpoint interval and every stop point k an interrupted run plus a resumed run; for every distinct outcome a failing variant; non-trivial = >= 3 iterations",
+                assumptions: vec!["hook H1 paths and harness histories identify an execution", "quick tier uses about 30 evenly spaced stop points per interval and intervals {1,3}; thorough every stop point and {1,2,3,7}"],
+                wall_cap: Duration::from_secs(if tier == "quick" { 60 } else { 900 }),
+                jobs: js,
+                self_checks: vec![],
+                completed_level: format!("iteration cap {} per program", cfg.iter_cap),
+                abort_is_violation: true,
+            })
+        }
+        "C16" => {
+            let progs = c16_programs(tier);
+            let mut cfg = cfg.clone();
+            cfg.iter_cap = 3000;
+            let mut js = vec![];
+            for (i, p) in progs.iter().enumerate() {
+                js.push(Job { id: format!("C16-iso-{}", i), check: "C16".into(), tier: tier.into(), program: p.clone(), cfg: cfg.clone(), extra: serde_json::json!({"mode": "isolated"}) });
+            }
+            for (i, p) in progs.iter().enumerate() {
+                for (j, q) in progs.iter().enumerate() {
+                    js.push(Job { id: format!("C16-pair-{}-{}", i, j), check: "C16".into(), tier: tier.into(), program: p.clone(), cfg: cfg.clone(), extra: serde_json::json!({"mode": "pair", "other": q}) });
+                    if i < j {
+                        js.push(Job { id: format!("C16-conc-{}-{}", i, j), check: "C16".into(), tier: tier.into(), program: p.clone(), cfg: cfg.clone(), extra: serde_json::json!({"mode": "concurrent", "other": q}) });
+                    }
+                }
+            }
+            Some(CheckSpec {
+                id: "C16",
+                level: "model_checking",
+                rule: "K diverse programs (atomics, locks, condvar, Notify, park, channels, arcs, leaks, deadlocks): all ordered pairs back to back in one process, all unordered pairs on two OS threads, and every iteration of every program replayed alone in a fresh process from the checkpoint stored before it; non-trivial = >= 2 iterations",
+                assumptions: vec!["a fresh child process is the reference for 'no earlier model ran'", "quick tier replays about 12 evenly spaced iterations per program in isolation, thorough all"],
+                wall_cap: Duration::from_secs(if tier == "quick" { 60 } else { 600 }),
+                jobs: js,
+                self_checks: vec![],
+                completed_level: format!("K = {}", progs.len()),
+                abort_is_violation: true,
+            })
+        }
+        "C14" => {
+            let (mut progs, mut level) = asc_programs(tier);
+            for (pr, l) in [lit_programs(tier), lock_programs(tier), wait_programs(tier), chan_programs(tier)] {
+                progs.extend(pr);
+                level = format!("{}; {}", level, l);
+            }
+            Some(CheckSpec {
+                id: "C14",
+                level: "model_checking",
+                rule: "every program of the A-sc, LIT, LOCK, WAIT and CHAN families; every iteration's decision path (hook H1) is checked by a streaming depth-first-order oracle; non-trivial = >= 2 iterations",
+                assumptions: vec!["the decision path handed out by hook H1 is a faithful copy of loom's path"],
+                wall_cap: wall,
+                jobs: jobs("C14", tier, progs, &cfg),
+                self_checks: vec![],
+                completed_level: level,
+                abort_is_violation: true,
+            })
+        }
+        "C15" => {
+            let mut progs = vec![];
+            let level;
+            if tier == "quick" {
+                progs.extend(fam::a_sc(1, 2, 2, 4, false));
+                progs.extend(fam::a_sc(2, 2, 2, 4, true));
+                progs.extend(fam::lock_family(1, 0, 2, 3, 6, true, true));
+                progs.extend(fam::lock_family(2, 0, 2, 4, 6, false, true));
+                progs.extend(fam::asc_sentinels());
+                progs.extend(fam::lock_sentinels());
+                level = "A-sc 2 threads x <=2 ops; LOCK 2 threads <=6 ops; sentinels (3 threads); bounds 0..6 and unbounded".to_string();
+            } else {
+                progs.extend(fam::a_sc(1, 2, 3, 6, false));
+                progs.extend(fam::a_sc(2, 2, 2, 4, false));
+                progs.extend(fam::a_sc(1, 3, 1, 3, false));
+                progs.extend(fam::lock_family(2, 0, 2, 4, 8, true, true));
+                progs.extend(fam::lock_family(1, 0, 3, 3, 7, true, true));
+                progs.extend(wait_programs("quick").0);
+                progs.extend(fam::asc_sentinels());
+                progs.extend(fam::lock_sentinels());
+                level = "A-sc 2 threads x <=3 ops, 3 threads; LOCK 2-3 threads <=8 ops; WAIT quick level; bounds 0..6 and unbounded".to_string();
+            }
+            Some(CheckSpec {
+                id: "C15",
+                level: "model_checking",
+                rule: "every program of the level x every preemption bound 0..6 and unbounded; every iteration's preemptions recounted from the raw H1 data; non-trivial = the bound 0 result set is a strict subset of the unbounded one",
+                assumptions: vec!["a preemption is a switch away from a thread that is neither disabled nor yielded at that schedule branch"],
+                wall_cap: wall,
+                jobs: jobs("C15", tier, progs, &cfg),
+                self_checks: vec![],
+                completed_level: level,
+                abort_is_violation: true,
+            })
+        }
         "C10" => {
             let mut progs = fam::leak_family();
             let (a, l1) = arc_programs(tier, true);
@@ -214,6 +327,23 @@ pub fn spec(check: &str, tier: &str) -> Option<CheckSpec> {
         }
         _ => None,
     }
+}
+
+pub fn c16_programs(tier: &str) -> Vec<Program> {
+    let mut v = vec![];
+    let pick = |x: Vec<Program>, n: usize| -> Vec<Program> {
+        let step = (x.len() / n).max(1);
+        x.into_iter().step_by(step).take(n).collect()
+    };
+    let k = if tier == "quick" { 2 } else { 5 };
+    v.extend(pick(fam::asc_sentinels(), k));
+    v.extend(pick(fam::lit_sentinels().into_iter().filter(|p| p.name.starts_with("S24-SB") || p.name.starts_with("S27")).collect(), k));
+    v.extend(pick(fam::lock_sentinels(), k));
+    v.extend(pick(fam::wait_family(1, 2, 2, 12, true, true, true), k + 1));
+    v.extend(pick(fam::chan_family(2, 1, 2, true), k));
+    v.extend(pick(fam::arc_family(1, 2, 1, 3, false, true, false), k));
+    v.extend(pick(fam::leak_family(), k + 1));
+    v
 }
 
 pub fn arc_programs(tier: &str, with_forget: bool) -> (Vec<Program>, String) {
